@@ -23,6 +23,8 @@ var (
 	refOnce sync.Once
 	ref     *refData
 	refErr  []failure
+	// refCases[i]: the call that refErr[i] is about (zero Call: none)
+	refCases []Call
 )
 
 func callKey(entry, shape string) string { return entry + "/" + shape }
@@ -38,6 +40,7 @@ func buildRef() {
 	ref.probe = e1.probe()
 	if p2 := e1.probe(); p2 != ref.probe {
 		refErr = append(refErr, failure{"harness|probe-unstable", fmt.Sprintf("probe is not repeatable on a fresh runtime: %q vs %q", ref.probe, p2)})
+		refCases = append(refCases, Call{})
 	}
 	for _, s := range allShapes {
 		if isStateful(s.Name) {
@@ -49,18 +52,30 @@ func buildRef() {
 			e2.setLog(false)
 			b := e2.exec(en, s.Name)
 			c := e1.exec(en, s.Name)
-			if !sameOutcome(a, b) || !sameOutcome(a, c) || a.Idle != ref.idle || b.Idle != ref.idle {
+			call := Call{Entry: en, Shape: s.Name}
+			for _, o := range []*outcome{a, b} {
+				if o.Idle != ref.idle {
+					refErr = append(refErr, failure{"not-idle:" + idleDiff(ref.idle, o.Idle) + "|none|" + boundary(en) + "|" + family(s.Name),
+						fmt.Sprintf("after %v the runtime is not idle: %s", call, idleDelta(ref.idle, o.Idle))})
+					refCases = append(refCases, call)
+					break
+				}
+			}
+			if !sameOutcome(a, b) || !sameOutcome(a, c) {
 				refErr = append(refErr, failure{"harness|baseline-unstable|" + callKey(en, s.Name),
-					fmt.Sprintf("unfaulted %s is not repeatable: %v idle=%+v / %v idle=%+v / %v", callKey(en, s.Name), a, a.Idle, b, b.Idle, c)})
+					fmt.Sprintf("unfaulted %s is not repeatable: %v / %v / %v", callKey(en, s.Name), a, b, c)})
+				refCases = append(refCases, call)
 			}
 			if strings.HasPrefix(a.Err, "panic") || a.Err == "overflow" {
 				refErr = append(refErr, failure{"harness|baseline-fails|" + callKey(en, s.Name), fmt.Sprintf("unfaulted %s: %v", callKey(en, s.Name), a)})
+				refCases = append(refCases, call)
 			}
 			ref.base[callKey(en, s.Name)] = a
 		}
 	}
 	if p := e1.probe(); p != ref.probe {
 		refErr = append(refErr, failure{"harness|probe-drifts", fmt.Sprintf("probe after all unfaulted calls: %q, fresh: %q", p, ref.probe)})
+		refCases = append(refCases, Call{})
 	}
 }
 
@@ -341,7 +356,6 @@ func (w *world) judgeStateful(c Call, o *outcome, add func(sig, what string)) {
 // judgeHistory runs a history on a brand-new runtime and judges every call.
 func judgeHistory(h []Call, r *core.Run) (fails []failure) {
 	w := newWorld()
-	fails = append(fails, refErr...)
 	for _, c := range h {
 		if r != nil {
 			r.Eval(1)
